@@ -15,3 +15,5 @@ func rtEvLogOn()        {}
 func rtEvLog() []uint64 { return nil }
 
 const rtEnabled = false
+
+func rtYield(site uint32) {}
